@@ -80,6 +80,7 @@ def work(item):
         # the next-speed clamp does not touch densities or queues: the vehicle balance must hold exactly as without any option
         hist, flags = "fresh", runs.flags_of(0b001000)
     builder = netcheck.history_builders()[hist]
+    runs.set_default_history(hist)
     topo = T_.Topo.from_json(tj)
     rng = random.Random(seed)
     acc = netcheck.Acc(topo.name)
